@@ -56,6 +56,9 @@ type Ledger struct {
 	callsPos int
 	AccH     map[uint64]uint64 // height -> DA height of an accepted header blob
 	AccD     map[uint64]uint64
+	// AccHEpochs / AccDEpochs: the incarnations (fence epochs) of the submitting node in which the part was accepted
+	AccHEpochs map[uint64]map[int]bool
+	AccDEpochs map[uint64]map[int]bool
 	maxHW    uint64 // largest persisted header watermark seen
 	maxDW    uint64
 	memHW    uint64
@@ -64,7 +67,7 @@ type Ledger struct {
 }
 
 func NewLedger(w *World, n *Node) *Ledger {
-	l := &Ledger{w: w, n: n, ih: w.Genesis.InitialHeight, AccH: map[uint64]uint64{}, AccD: map[uint64]uint64{}}
+	l := &Ledger{w: w, n: n, ih: w.Genesis.InitialHeight, AccH: map[uint64]uint64{}, AccD: map[uint64]uint64{}, AccHEpochs: map[uint64]map[int]bool{}, AccDEpochs: map[uint64]map[int]bool{}}
 	n.DAOf().Probe = func() [2]uint64 { return [2]uint64{RawU64(n.Disk, HWKey), RawU64(n.Disk, DWKey)} }
 	return l
 }
@@ -172,6 +175,14 @@ func (l *Ledger) Scan() (oracle, msg string) {
 			}
 		}
 		for i := 0; i < c.Accepted && i < len(infos); i++ {
+			eps := l.AccHEpochs
+			if kind != 0 {
+				eps = l.AccDEpochs
+			}
+			if eps[infos[i].Height] == nil {
+				eps[infos[i].Height] = map[int]bool{}
+			}
+			eps[infos[i].Height][c.Epoch] = true
 			if kind == 0 {
 				if _, ok := l.AccH[infos[i].Height]; !ok {
 					l.AccH[infos[i].Height] = c.Height
